@@ -565,7 +565,7 @@ theorem step_rinv {A : Nat → Option Nat} {s s' : Sys} {l : Label} (h : RInv A 
         (fun _ _ _ hp => by cases hp) (by simp)
     · cases hst
       refine rinv_api s.tasks h.fl ⟨_, _, _⟩ ?_ (mono_same (Nat.le_refl _) rfl) (fun _ _ _ hp => by cases hp) ?_
-      · exact h.core.ext (fun _ hx => hx) (Nat.le_refl _) [.apiOpen s.core.now] rfl (by simp [notMax])
+      · exact h.core.ext (fun _ hx => (by cases hx)) (Nat.le_refl _) [.apiOpen s.core.now] rfl (by simp [notMax])
       · intro p hp; simp only [List.mem_singleton] at hp; subst hp; rfl
   | apiClose =>
     simp only [step] at hst
@@ -686,7 +686,7 @@ theorem rinv_reachableWF {s : Sys} (h : ReachableWF s) (A : Nat → Option Nat) 
   rw [sendSids_append] at hnd
   have hnd0 : (sendSids ls).Nodup := (List.nodup_append.1 hnd).1
   have hrw : rwValid s.core := (hinv1_reachable ⟨ls, hrun⟩).rwv
-  obtain ⟨evs, htr, _⟩ := SockHeal.step_fate hrw hst
+  obtain ⟨evs, htr⟩ := SockHeal.step_trace_ext hst
   have hAs : Agrees A s.core.trace := by rw [htr] at hA'; exact hA'.prefix evs
   refine step_rinv (hp hnd0 A hAs) ?_ hst
   intro sid r life ok hl hopen hcap
